@@ -538,7 +538,7 @@ class Translator:
                 if f.attr in ("fit", "fit_transform", "fit_predict"):
                     for pb in self.uni.external_bases(self.cname):
                         for a in EXTERNAL_FIT_WRITES.get(pb, []):
-                            out.append(("atom", ("wattr", a, [])))
+                            out.append(("atom", ("wattr", a, [], "external")))
                 return out
             # Parent.method(self, ...)
             if isinstance(recv, ast.Name) and call.args and isinstance(call.args[0], ast.Name) \
@@ -553,7 +553,7 @@ class Translator:
                     out.append(("call",))
                     if f.attr in ("fit", "fit_transform", "fit_predict"):
                         for a in EXTERNAL_FIT_WRITES.get(recv.id, []):
-                            out.append(("atom", ("wattr", a, [])))
+                            out.append(("atom", ("wattr", a, [], "external")))
                     return out
             # ClassName.static(...)
             if isinstance(recv, ast.Name) and recv.id in self.uni.classes:
@@ -1072,3 +1072,31 @@ def specialize(prog, rho):
     if t in ("loop", "scope"):
         return (t, specialize(prog[1], rho))
     return prog
+
+
+TRACE_ATOMS = {"write", "restore", "wattr", "dattr"}
+
+
+def trace_program(prog):
+    """The skeleton reduced to the assignments a tracer of `self.__setattr__/__delattr__` can observe
+    when they are performed by mlinsights code: hyper-parameter writes/restores, attribute writes and
+    deletions.  Writes done by an external parent's fit are silent; a guarded delete may or may not happen."""
+    t = prog[0]
+    if t == "atom":
+        a = prog[1]
+        if a[0] not in TRACE_ATOMS:
+            return ("skip",)
+        if a[0] == "wattr" and len(a) > 3 and a[3] == "external":
+            return ("skip",)
+        if a[0] == "dattr" and len(a) > 2:
+            return ("ite", ("nop",), ("atom", ("dattr", a[1])), ("skip",))
+        return prog
+    if t in ("skip", "call", "raise_", "ret", "brk"):
+        return prog
+    if t in ("seq", "tryFinally", "tryExcept"):
+        return (t, trace_program(prog[1]), trace_program(prog[2]))
+    if t == "ite":
+        return ("ite", ("nop",), trace_program(prog[2]), trace_program(prog[3]))
+    if t in ("loop", "scope"):
+        return (t, trace_program(prog[1]))
+    raise ValueError(prog)
